@@ -350,7 +350,26 @@ def work(item) -> Dict[str, Any]:
             if n == cname:
                 o = cls()
                 fill(o, "mixed")
-                cls.from_dict(o.to_dict())
+                try:
+                    cls.from_dict(o.to_dict())
+                except Exception as e:
+                    problems.append({"kind": "codec-raised", "codec": "dict", "what": f"valx.{n}/mixed (before the second definition set)", "exc": f"{type(e).__name__}: {str(e)[:120]}"})
+                if is_msg:
+                    # ... and decoded once as header plus data while the FIRST definition was the registered one (the type id has
+                    # been looked up before the definition is registered again with another layout)
+                    import pyrtma
+                    from pyrtma.message import Message
+                    from pyrtma.header import get_header_cls
+
+                    pyrtma.message_def(cls)
+                    h = get_header_cls()()
+                    h.msg_type = o.type_id
+                    h.num_data_bytes = ctypes.sizeof(o)
+                    h.version = o.type_hash
+                    try:
+                        Message.from_json(Message(h, o).to_json())
+                    except Exception as e:
+                        problems.append({"kind": "message-codec-raised", "what": f"valx.{n}/mixed before re-registration", "exc": f"{type(e).__name__}: {str(e)[:120]}"})
     for n, cls, is_msg in load_classes(which):
         if n != cname:
             continue
